@@ -276,7 +276,11 @@ func (s *Script) evalWithRoot(stack, data, root any) (any, Expr) {
 				if o, ok := sstack[i-1].(*op); ok && o.getLeft {
 					var x Expr
 					if x, ok = ev.(Expr); ok {
-						ev = x.Get(v)
+						if 0 < len(x) && isRootFrag(x[0]) {
+							ev = x.Get(root)
+						} else {
+							ev = x.Get(v)
+						}
 					} else {
 						ev = nil
 					}
@@ -1013,4 +1017,9 @@ func RegisterBinaryFunction(name string, getLeft, getRight bool, f func(left, ri
 		getLeft:  getLeft,
 		getRight: getRight,
 	}
+}
+
+func isRootFrag(f Frag) bool {
+	_, ok := f.(Root)
+	return ok
 }
